@@ -328,3 +328,39 @@ func VerifC12LongFrame() {
 	verifC12Frame("C12.long", p, mtu, 7, verifVP9Frame{data: data})
 	verifCover("C12.long.end")
 }
+
+// picture groups near the top of the 8-bit N_G field: 85, 86 and 255 pictures
+// with 0..3 reference indices each (mostly fixed bytes, symbolic ends)
+func VerifC12LargePictureGroup() {
+	ng := verifPick("N_G", []int{85, 86, 255})
+	desc := []byte{0x02 | verifU8("b0")&0x0D, 0x08, uint8(ng)} // V=1; N_S=0, Y=0, G=1; N_G
+	var want [][]uint8
+	for k := 0; k < ng; k++ {
+		r := (k + 3) % 4
+		if r > 3 {
+			r = 3
+		}
+		tu := uint8(k*37) & 0xF0
+		desc = append(desc, tu&0xF3|uint8(r)<<2)
+		var refs []uint8
+		for q := 0; q < r; q++ {
+			x := uint8(k*7 + q*13 + 1)
+			if k == 0 || k == ng-1 {
+				x = verifU8("pdiff")
+			}
+			refs = append(refs, x)
+			desc = append(desc, x)
+		}
+		want = append(want, refs)
+	}
+	body := verifBytes("body", verifCase("bodylen", 0, 1))
+	var d VP9Packet
+	out, err := d.Unmarshal(append(append([]byte{}, desc...), body...))
+	verifAssert("C12.pg.accept", err == nil)
+	verifAssert("C12.pg.payload", verifEqBytes(out, body))
+	verifAssert("C12.pg.count", int(d.NG) == ng && len(d.PGTID) == ng && len(d.PGU) == ng && len(d.PGPDiff) == ng)
+	for k := 0; k < ng && k < len(d.PGPDiff); k++ {
+		verifAssert("C12.pg.refs", verifEqBytes(d.PGPDiff[k], want[k]))
+	}
+	verifCover("C12.pg.end")
+}
